@@ -14,6 +14,15 @@ static Obj *current_fn;
 static void gen_expr(Node *node);
 static void gen_stmt(Node *node);
 
+#ifdef CHIBICC_VERIF
+// Verification hooks (off unless the environment variable
+// CHIBICC_VERIF_PROBES is set when cc1 runs). They only add monitor
+// calls to the emitted assembly; see /verif/DESIGN.md section 2.2.
+static bool verif_probes;
+static int verif_stmt_expr_depth;
+static void verif_call_probe(void);
+#endif
+
 __attribute__((format(printf, 1, 2)))
 static void println(char *fmt, ...) {
   va_list ap;
@@ -96,6 +105,9 @@ static void gen_addr(Node *node) {
     if (opt_fpic) {
       // Thread-local variable
       if (node->var->is_tls) {
+#ifdef CHIBICC_VERIF
+        verif_call_probe();
+#endif
         println("  data16 lea %s@tlsgd(%%rip), %%rdi", node->var->name);
         println("  .value 0x6666");
         println("  rex64");
@@ -803,8 +815,14 @@ static void gen_expr(Node *node) {
     store(node->ty);
     return;
   case ND_STMT_EXPR:
+#ifdef CHIBICC_VERIF
+    verif_stmt_expr_depth++;
+#endif
     for (Node *n = node->body; n; n = n->next)
       gen_stmt(n);
+#ifdef CHIBICC_VERIF
+    verif_stmt_expr_depth--;
+#endif
     return;
   case ND_COMMA:
     gen_expr(node->lhs);
@@ -932,6 +950,9 @@ static void gen_expr(Node *node) {
 
     println("  mov %%rax, %%r10");
     println("  mov $%d, %%rax", fp);
+#ifdef CHIBICC_VERIF
+    verif_call_probe();
+#endif
     println("  call *%%r10");
     println("  add $%d, %%rsp", stack_args * 8);
 
@@ -1185,8 +1206,36 @@ static void gen_expr(Node *node) {
   error_tok(node->tok, "invalid expression");
 }
 
+#ifdef CHIBICC_VERIF
+// Statement probe: the runtime checks rsp + 8*depth == alloca_bottom,
+// that the x87 stack is empty (outside statement expressions) and that
+// the FP control words still have their start-up values.
+static void verif_stmt_probe(Node *node) {
+  if (!verif_probes || !current_fn || node->kind == ND_BLOCK)
+    return;
+  println("  mov $%d, %%edi", depth * 8);
+  println("  mov %d(%%rbp), %%rsi", current_fn->alloca_bottom->offset);
+  println("  mov $%d, %%edx", verif_stmt_expr_depth);
+  println("  mov $%d, %%ecx", node->tok->line_no);
+  println("  call __verif_stmt_probe@PLT");
+}
+
+// Call-site probe: the stack must be 16-byte aligned at every call.
+static void verif_call_probe(void) {
+  if (!verif_probes)
+    return;
+  println("  test $15, %%spl");
+  println("  jz 9f");
+  println("  call __verif_misaligned_call@PLT");
+  println("9:");
+}
+#endif
+
 static void gen_stmt(Node *node) {
   println("  .loc %d %d", node->tok->file->file_no, node->tok->line_no);
+#ifdef CHIBICC_VERIF
+  verif_stmt_probe(node);
+#endif
 
   switch (node->kind) {
   case ND_IF: {
@@ -1584,6 +1633,9 @@ static void emit_text(Obj *prog) {
 
 void codegen(Obj *prog, FILE *out) {
   output_file = out;
+#ifdef CHIBICC_VERIF
+  verif_probes = getenv("CHIBICC_VERIF_PROBES") != NULL;
+#endif
 
   File **files = get_input_files();
   for (int i = 0; files[i]; i++)
